@@ -10,6 +10,7 @@
 package interp
 
 import (
+	"go/token"
 	"bytes"
 	"encoding/base64"
 	"encoding/json"
@@ -1150,7 +1151,45 @@ func readerBytes(fr *frame, r value) []byte {
 	panic(unsupported{"json.NewDecoder over reader type " + iv.t.String()})
 }
 
+// jsonEncModel: json.NewEncoder(w) — Encode marshals with the JSON model and
+// hands the blob to w.Write (the trailing newline is not modelled).
+type jsonEncModel struct{ w iface }
+
+// callIfaceMethod invokes the named method of the dynamic value of iv.
+func callIfaceMethod(fr *frame, iv iface, name string, args ...value) value {
+	if iv.t == nil {
+		panic("runtime error: invalid memory address or nil pointer dereference (method invoked on nil interface)")
+	}
+	ms := fr.i.prog.MethodSets.MethodSet(iv.t)
+	for k := 0; k < ms.Len(); k++ {
+		if ms.At(k).Obj().Name() == name {
+			f := lookupMethod(fr.i, iv.t, ms.At(k).Obj().(*types.Func))
+			return call(fr.i, fr, token.NoPos, f, append([]value{iv.v}, args...))
+		}
+	}
+	panic("gosx: no method " + name + " on " + iv.t.String())
+}
+
 func init() {
+	readAll := func(fr *frame, args []value) value {
+		return tuple{bytesVal(readerBytes(fr, args[0])), iface{}}
+	}
+	externals["io.ReadAll"] = readAll
+	externals["io/ioutil.ReadAll"] = readAll
+	externals["encoding/json.NewEncoder"] = func(fr *frame, args []value) value {
+		return box(&jsonEncModel{w: args[0].(iface)})
+	}
+	externals["(*encoding/json.Encoder).SetIndent"] = func(fr *frame, args []value) value { return nil }
+	externals["(*encoding/json.Encoder).SetEscapeHTML"] = func(fr *frame, args []value) value { return nil }
+	externals["(*encoding/json.Encoder).Encode"] = func(fr *frame, args []value) value {
+		em := unbox(args[0], "*json.Encoder").(*jsonEncModel)
+		res := ext۰json۰Marshal(fr, []value{args[1]}).(tuple)
+		if e, ok := res[1].(iface); ok && e.t != nil {
+			return res[1]
+		}
+		wres := callIfaceMethod(fr, em.w, "Write", res[0]).(tuple)
+		return wres[1]
+	}
 	externals["encoding/json.NewDecoder"] = func(fr *frame, args []value) value {
 		data := readerBytes(fr, args[0])
 		return box(&jsonDecModel{dec: json.NewDecoder(bytes.NewReader(data))})
